@@ -375,7 +375,8 @@ def gen_c11(seed, size="quick"):
     dom = r.choice([6, 10, 16])
     edb(t, r, r.choice([15, 40, 90]) if size == "quick" else r.choice([40, 90, 200]), dom)
     t.meta["subsumed"] = []
-    kinds = r.sample(["shortest", "pareto", "latest", "shortest2", "countdown", "via_helper", "merge"], r.randrange(1, 3))
+    kinds = r.sample(["shortest", "pareto", "latest", "shortest2", "countdown", "via_helper", "merge", "loaded", "loaded_rec", "infacts"],
+                     r.randrange(1, 3))
     for kind in kinds:
         if kind == "shortest":
             bound = r.choice([12, 20, 30])
@@ -396,6 +397,32 @@ def gen_c11(seed, size="quick"):
             t.extra_text.append("sq(x,y,d1) <= sq(x,y,d2) :- d2 < d1.")
             t.meta["subsumed"].append({"rel": "sq", "dom": "lt2", "monotone": True})
             t.outputs.append("sq")
+        elif kind in ("loaded", "loaded_rec"):
+            # the subsumptive relation is itself loaded from a fact file holding comparable tuples; it has no rule at all
+            # ("loaded") or only a recursive one ("loaded_rec")
+            rel = "lb" if kind == "loaded" else "ls"
+            rows = set((r.randrange(dom), r.randrange(1, 12)) for _ in range(r.choice([8, 20, 40])))
+            t.decls.append(".decl %s(x:number,d:number) btree_delete" % rel)
+            t.facts[rel] = [tuple(map(str, x)) for x in sorted(rows)]
+            t.meta["edb"][rel] = sorted(rows)
+            if kind == "loaded_rec":
+                bound = r.choice([12, 20])
+                t.rules.append({"head": (rel, [V("y"), ADD(V("d"), V("w"))]),
+                                "body": [("atom", rel, [V("x"), V("d")]), ("atom", "ew", [V("x"), V("y"), V("w")]), ("cmp", "<", ADD(V("d"), V("w")), C(bound))]})
+            t.extra_text.append("%s(x,d1) <= %s(x,d2) :- d2 < d1." % (rel, rel))
+            t.meta["subsumed"].append({"rel": rel, "dom": "lt1", "monotone": True})
+            t.outputs.append(rel)
+        elif kind == "infacts":
+            # comparable facts in the program text, optionally with a recursive rule
+            t.decls.append(".decl lf(x:number,d:number) btree_delete")
+            for _ in range(r.choice([4, 9])):
+                t.rules.append({"head": ("lf", [C(r.randrange(4)), C(r.randrange(1, 9))]), "body": []})
+            if r.random() < 0.5:
+                t.rules.append({"head": ("lf", [V("y"), ADD(V("d"), V("w"))]),
+                                "body": [("atom", "lf", [V("x"), V("d")]), ("atom", "ew", [V("x"), V("y"), V("w")]), ("cmp", "<", ADD(V("d"), V("w")), C(14))]})
+            t.extra_text.append("lf(x,d1) <= lf(x,d2) :- d2 < d1.")
+            t.meta["subsumed"].append({"rel": "lf", "dom": "lt1", "monotone": True})
+            t.outputs.append("lf")
         elif kind == "via_helper":
             # the subsumptive relation is mutually recursive with an ordinary helper relation (one SCC, two relations);
             # the helper's name sorts after / before the subsumptive one depending on the seed
